@@ -149,6 +149,11 @@ class UnitarySerializedEmulator(IndependentSubcircuitsBackend):
 
                     vec[i] += inp[j] * dsub[dsub_row, dsub_col]
 
+            if _verif_trace.ENABLED:
+                _verif_trace.emit(
+                    "applied", sub=index, gate=gate.name, vec=vec.copy()
+                )
+
         probs = numpy.abs(vec) ** 2
 
         subcircuit = EmulatorSubcircuit(
